@@ -58,7 +58,14 @@ def allIdx : List Nat → List (List Nat)
   | [] => [[]]
   | d :: ds => (List.range d).flatMap (fun i => (allIdx ds).map (fun r => i :: r))
 
-def prodL (l : List Nat) : Nat := l.foldl (· * ·) 1
+def prodL : List Nat → Nat
+  | [] => 1
+  | d :: ds => d * prodL ds
+
+/-- inverse of `ravel` -/
+def unravel : List Nat → Nat → List Nat
+  | [], _ => []
+  | _ :: ds, p => (p / prodL ds) :: unravel ds (p % prodL ds)
 
 /-- row-major flat position -/
 def ravel : List Nat → List Nat → Nat
